@@ -149,27 +149,48 @@ pub fn build<const K: usize>(rng: &mut Rng, shape: &Shape, dim: usize, out: usiz
         }
     }
     let mut t = AffTree::<K>::from_aff(node_fn::<K>(rng, shape, dim, out, few, rows));
-    fn rec<const K: usize>(t: &mut AffTree<K>, at: usize, s: &Shape, rng: &mut Rng, dim: usize, out: usize, few: bool, rows: usize, scramble: bool) {
-        if let Shape::Dec(cs) = s {
-            // optional order variation: fill labels descending
-            let order: Vec<usize> = if scramble && rng.chance(1, 2) { (0..cs.len()).rev().collect() } else { (0..cs.len()).collect() };
-            for l in order {
-                if let Some(c) = &cs[l] {
-                    if scramble && rng.chance(1, 3) {
-                        // temporary subtree, removed again: frees indices for reuse
-                        let tmp = t.add_child_node(at, l, term(rng, dim, out, few)).unwrap();
-                        let _ = t.add_child_node(tmp, 0, term(rng, dim, out, few)).unwrap();
-                        t.tree.remove_child(at, l);
-                    }
-                    let f = node_fn::<K>(rng, c, dim, out, few, rows);
-                    let idx = t.add_child_node(at, l, f).unwrap();
-                    rec(t, idx, c, rng, dim, out, few, rows, scramble);
+    let root = t.tree.get_root_idx();
+    // Nodes are inserted in a random parent-before-child order. With `scramble`, a slot that is about to be filled may
+    // first receive a decoy node that is removed again at a random later time, so that freed (low) indices are reused by
+    // arbitrary later nodes: children can get smaller indices than their parents and layouts are non-contiguous.
+    let mut pending: Vec<(usize, usize, Shape, bool)> = vec![];
+    let mut decoys: Vec<(usize, usize, Shape)> = vec![];
+    if let Shape::Dec(cs) = shape {
+        for (l, c) in cs.iter().enumerate() {
+            if let Some(c) = c {
+                pending.push((root, l, c.clone(), true));
+            }
+        }
+    }
+    while !pending.is_empty() || !decoys.is_empty() {
+        let undo = !decoys.is_empty() && (pending.is_empty() || rng.chance(1, 3));
+        if undo {
+            let k = rng.below(decoys.len());
+            let (p, l, sh) = decoys.swap_remove(k);
+            t.tree.remove_child(p, l);
+            pending.push((p, l, sh, false));
+            continue;
+        }
+        let k = if scramble { rng.below(pending.len()) } else { 0 };
+        let (p, l, sh, may_decoy) = pending.remove(k);
+        if scramble && may_decoy && rng.chance(1, 3) {
+            let tmp = t.add_child_node(p, l, term(rng, dim, out, few)).unwrap();
+            if rng.chance(1, 2) {
+                let _ = t.add_child_node(tmp, rng.below(K), term(rng, dim, out, few)).unwrap();
+            }
+            decoys.push((p, l, sh));
+            continue;
+        }
+        let f = node_fn::<K>(rng, &sh, dim, out, few, rows);
+        let idx = t.add_child_node(p, l, f).unwrap();
+        if let Shape::Dec(cs) = &sh {
+            for (cl, c) in cs.iter().enumerate() {
+                if let Some(c) = c {
+                    pending.push((idx, cl, c.clone(), true));
                 }
             }
         }
     }
-    let root = t.tree.get_root_idx();
-    rec(&mut t, root, shape, rng, dim, out, few, rows, scramble);
     t
 }
 
